@@ -136,6 +136,28 @@ impl TableWriter {
     }
 }
 
+/// Verification hooks (compiled only with `--cfg googlefonts_fontations_verif`).
+///
+/// Add-only access for an external differential harness that implements
+/// [`FontWrite`] for its own value trees: the crate-private
+/// [`TableWriter::adjust_offsets`], and the [`TableType`](crate::table_type::TableType)
+/// that an override of [`FontWrite::table_type`] has to name. Nothing here is
+/// used by the crate.
+#[cfg(googlefonts_fontations_verif)]
+pub mod verif_hooks {
+    use super::TableWriter;
+    pub use crate::table_type::TableType;
+
+    /// [`TableWriter::adjust_offsets`]: run `f` with written offsets adjusted by `adjustment`.
+    pub fn with_offset_adjustment(
+        writer: &mut TableWriter,
+        adjustment: u32,
+        f: impl FnOnce(&mut TableWriter),
+    ) {
+        writer.adjust_offsets(adjustment, f)
+    }
+}
+
 impl Default for TableWriter {
     fn default() -> Self {
         TableWriter {
